@@ -53,6 +53,26 @@ def r1(ctx):
                      "the in-use checks are applied to a different value than the returned port")
         if not rets:
             ctx.bad(R, "assign_ephemeral_port:return-guard", b.span, "no return value assignment found")
+        # the scan looks at every port of the (inclusive) range once: one attempt per port. `end - start` attempts leave the port directly
+        # behind the cursor unexamined - when it is the only free one the allocator reports exhaustion although a port was just released
+        its = [t for bb, t in b.calls(re.compile(r"IntoIterator>::into_iter$|^std::iter::IntoIterator::into_iter$"))
+               if "field:turmoil::host::Host::ephemeral_ports" in Slicer(ctx.w).atoms(b, t["args"][0])]
+        okn = False
+        why = "no loop over the ephemeral range found"
+        for t in its:
+            ty = b.ty_str(t["at"][0]) if t.get("at") else ""
+            at = Slicer(ctx.w).atoms(b, t["args"][0])
+            if "RangeInclusive<" in ty:
+                okn = True
+            elif "Range<" in ty:
+                o = origin(b, t["args"][0])
+                end = o["r"]["ops"][1] if o["k"] == "agg" and len(o["r"].get("ops", [])) == 2 else None
+                sh = expr_shape(b, end) if end is not None else None
+                okn = any(re.search(r"::(count|len)$", a) for a in at) or (isinstance(sh, tuple) and sh[0] == "Add" and "const:1" in sh[1:])
+                why = f"the loop makes {shape_str(sh) if sh is not None else '?'} attempts"
+        ctx.inst(R, "assign_ephemeral_port:one-attempt-per-port", okn, its[0]["s"] if its else b.span, "the scan makes one attempt for every port of the inclusive range" if okn else
+                 f"{why}, one short of the number of ports in the inclusive range: the port just behind the cursor is never examined - with every other port in use the allocator "
+                 "panics `ports exhausted` although that port was released")
         # wrap-around: a write of ephemeral_ports.start() to next_ephemeral_port exists under the `== end` test
         wr = [s for bb, i, s in b.all_stmts() if place_last_field(s["p"]) == "turmoil::host::Host::next_ephemeral_port"]
         wraps = any("call:std::ops::RangeInclusive::start" in Slicer(ctx.w).atoms(b, s["r"]["o"]) for s in wr if s["r"]["k"] == "use")
@@ -350,6 +370,29 @@ def r5(ctx):
         for sbb, te, fe, o in guards_on(b, lambda o: o["k"] == "call" and re.search(r"::(contains|contains_key)$", o["t"]["f"])):
             if any(a.startswith("call:turmoil::ip::IpVersionAddrIter::next") for a in Slicer(ctx.w).atoms(b, o["t"]["args"][1])):
                 tested = True
+    # every address the allocator hands out was tested: a draw that is returned without passing the `taken` test (the second draw of a
+    # single `if` instead of a loop) lands on the next literal host when two of them are adjacent
+    untested = []
+    for b in ctx.w.bodies.values():
+        if b.crate != "turmoil" or "dns" not in b.id:
+            continue
+        for nbb, nt in b.calls("turmoil::ip::IpVersionAddrIter::next"):
+            if nt["d"].get("p"):
+                continue
+            d = nt["d"]["l"]
+            guards = []
+            for sbb, te, fe, o in guards_on(b, lambda o: o["k"] == "call" and re.search(r"::(contains|contains_key)$", o["t"]["f"])):
+                og = deref_origin(b, o["t"]["args"][1])
+                if (og.get("k") == "call" and og.get("bb") == nbb) or (og.get("k") == "place" and og["p"]["l"] == d and not og["p"].get("p")):
+                    guards += fe
+            rl = ret_locals(b)
+            outs = [nbb] if d == 0 else []
+            outs += [bb for bb, i, s2 in b.all_stmts() if i != "term" and not s2["p"].get("p") and s2["p"]["l"] in rl and s2["r"]["k"] == "use"
+                     and (op_place(s2["r"]["o"]) or {}).get("l") == d and not (op_place(s2["r"]["o"]) or {}).get("p")]
+            for x in outs:
+                if not (guards and x != nbb and b.dominated_by_any(x, edges=guards)):
+                    untested.append(nt["s"])
+    tested = tested and not untested
     ok = told and tested
     ctx.inst(R, "names-avoid-registered-addresses", ok, reg.span if reg else "", "registered addresses are reserved and skipped by the name allocator" if ok else
              "the name allocator never learns which addresses are taken by hosts registered by literal address: sim.client(192.168.0.3, ..) followed by three "
